@@ -42,6 +42,23 @@ def profile_refs(a):
         psi1D, fpol, pres = inp["psi1D"], inp["fpol1D"], inp["pressure"]
     psi1D = psi1D * k
     fsign = -1.0 if opts.get("reverse_Bt") else 1.0
+    lo0, hi0 = float(min(psi1D[0], psi1D[-1])), float(max(psi1D[0], psi1D[-1]))
+    if opts.get("extrapolate_profiles") and opts.get("psi_sol") is not None:
+        # the documented continuation (option text: exponential decay of the pressure based on
+        # value and gradient at the edge; fpol constant), on 49 further points up to the
+        # outermost psi of the grid; the splines are built through the continued profile, so
+        # the last few intervals inside the profile are those of the continued profile too
+        inc = psi1D[-1] > psi1D[0]
+        outer = (max if inc else min)(float(opts["psi_sol"]), float(opts.get("psi_sol_inner") or opts["psi_sol"]))
+        if (outer - psi1D[-1]) * (1 if inc else -1) > 0:
+            ext = np.linspace(psi1D[-1], outer, 50)[1:]
+            if pres is not None and len(pres):
+                p0 = pres[-1]
+                dp = (pres[-1] - pres[-2]) / (psi1D[-1] - psi1D[-2])
+                pres = np.concatenate([pres, p0 * np.exp((ext - psi1D[-1]) * dp / p0)])
+            if len(fpol):
+                fpol = np.concatenate([fpol, np.full(ext.shape, fpol[-1])])
+            psi1D = np.concatenate([psi1D, ext])
     order = np.argsort(psi1D)
     x = psi1D[order]
 
@@ -52,7 +69,8 @@ def profile_refs(a):
 
     fh = spl(fpol * fsign if len(fpol) else None)
     ph = spl(pres)
-    return fh, ph, float(x[0]), float(x[-1])
+    # (psi_lo, psi_hi): the range of the profile as given (pressure beyond it is only bounded)
+    return fh, ph, lo0, hi0
 
 
 def leg_separatrix_psi(reg_by_eq, eqname):
@@ -128,15 +146,12 @@ def check_artefact(ctx, a, stats):
                 want = fh(psi_here) / R
                 ftol = 1e-9 * np.maximum(1.0, np.abs(want))
                 if extrap:
-                    # the library splines the profile continued by a constant: inside the last
-                    # few profile intervals its spline differs from the checker's (built on the
-                    # input profile alone, clamped beyond it) by the ringing of the kink at the
-                    # joint, which decays by ~0.27 per interval
+                    # (reference = spline through the continued profile, see profile_refs)
                     hprof = (phi - plo) / max(1, a.config.get("nprof", 65) - 1)
                     edge_psi = phi if sign_out > 0 else plo
                     near = np.abs(psi_here - edge_psi) < 8 * hprof
                     beyond = (psi_here - edge_psi) * sign_out > 0
-                    ftol = np.where(near | beyond, 1e-3 * np.abs(want), 1e-6 * np.maximum(1.0, np.abs(want)))
+                    ftol = np.where(near | beyond, 1e-8 * np.maximum(1.0, np.abs(want)), ftol)
                 viol("Btxy=fpol(psi)/R", reg, loc, np.where(ok, np.abs(A["Btxy"][loc] - want), 0), ftol)
             else:
                 viol("Btxy=0 without fpol", reg, loc, np.abs(A["Btxy"][loc]), 0.0)
@@ -158,7 +173,7 @@ def check_artefact(ctx, a, stats):
                 if extrap:
                     hprof = (phi - plo) / max(1, a.config.get("nprof", 65) - 1)
                     edge_psi = phi if sign_out > 0 else plo
-                    ptol_ = np.where(np.abs(psi_eval - edge_psi) < 8 * hprof, 1e-3 * np.maximum(1.0, np.abs(want)), ptol_)
+                    ptol_ = np.where(np.abs(psi_eval - edge_psi) < 8 * hprof, 1e-5 * np.maximum(1.0, np.abs(want)), ptol_)
                     # beyond the profile: continued from the edge value, decaying, never negative
                     p_edge = float(ph(edge_psi))
                     outside = ok & ~inside
